@@ -365,7 +365,7 @@ class BQLShell(DispatchingShell):
 
     def parse(self, line, default_close_date=None, **kwargs):
         statement = self.context.parse(line)
-        if (isinstance(statement, parser.ast.Select) and
+        if (isinstance(statement, (parser.ast.Select, parser.ast.Balances, parser.ast.Journal)) and
             isinstance(statement.from_clause, parser.ast.From) and
             not statement.from_clause.close):
             statement.from_clause.close = default_close_date
